@@ -18,7 +18,7 @@ func init() {
 			"R4 an unknown placeholder yields the empty-value marker; " +
 			"R5 every matching log rule must log (known finding: only the first does); " +
 			"R6 every update of the recorded size, anywhere in the module, adds a count reported by the wrapped writer for a call made directly on it (no byte counted twice); " +
-			"R7 the except test reads the URL copy taken before the next handler ran. Since round 4: R2 also: Replacer.Set stores its value verbatim. R3/R6 as a table of the recorder (header incl. 1xx then final status, writes, one failing, ReadFrom with and without io.ReaderFrom below): status and size are what the wrapped writer was sent. R7 as a table of Logger.ServeHTTP: the except test sees the path as received, one line per non-excepted entry. R8 the recorder inherits no body method. Since round 5: R9 log is listed before (so nested outside) every in-module directive whose handler can answer on its own. Since round 6: R7 with entries that have an ipmask (masked exactly in their own lines); R10 logParse keeps every log directive's except list and mask to itself; the recorder table has a ReadFrom that fails part-way.",
+			"R7 the except test reads the URL copy taken before the next handler ran. Since round 4: R2 also: Replacer.Set stores its value verbatim. R3/R6 as a table of the recorder (header incl. 1xx then final status, writes, one failing, ReadFrom with and without io.ReaderFrom below): status and size are what the wrapped writer was sent. R7 as a table of Logger.ServeHTTP: the except test sees the path as received, one line per non-excepted entry. R8 the recorder inherits no body method. Since round 5: R9 log is listed before (so nested outside) every in-module directive whose handler can answer on its own. Since round 6: R7 with entries that have an ipmask (masked exactly in their own lines); R10 logParse keeps every log directive's except list and mask to itself; the recorder table has a ReadFrom that fails part-way. Since round 8: R11 old.Start, new.Start, old.Close on one unrotated log file leaves the new logger's file open.",
 		notDecided: "concurrency of log writes; byte-exact {size} for hijacked connections or writers outside the module.",
 	})
 }
